@@ -19,6 +19,8 @@ func FuzzRvInfo(f *testing.F) {
 	// found by this target: an IP address sent as a CBOR array of four small integers (the codec
 	// decodes it into a []byte; now classified as a lenient encoding by the reference)
 	f.Add([]byte("0z0\x84\x00\x02\x00\x00"))
+	f.Add([]byte("0B0\x820\xf6"))            // certificate hash whose value is null (decodes to an empty slice)
+	f.Add([]byte("0z0\x84\x03\xe8\x00\x00")) // array with an unassigned simple value (read as 8)
 	f.Add([]byte{1, 2, 5, 0x84, 10, 0, 0, 7, 6, 6, 0x82, 0x2f, 0x83, 1, 2, 3})
 	f.Fuzz(func(t *testing.T, in []byte) {
 		if len(in) == 0 || len(in) > 4096 {
